@@ -9,7 +9,7 @@ Core Lean only (linked into `bsmodel`).
 -/
 namespace BsVerif.SliceBuf
 
-/-- what an out-of-range request ran into BEFORE the repairs (BugStalker 6b37ef0, f8cae1d, ddfe130); in the code as it
+/-- what an out-of-range request ran into BEFORE the repairs (BugStalker ccf13b4, d97590b, 939acb3); in the code as it
 is each of these tests exists explicitly and yields "no result" -/
 inductive Fault
   | sub         -- `right < left`: `right.checked_sub(left)?` / the guard of `ArrayValue::slice`   (was: `right - left` overflow)
